@@ -4,6 +4,7 @@ import NutsModel.C18.Cache
 import NutsModel.C18.RCache
 import NutsModel.C18.LocalStore
 import NutsModel.C18.DidKey
+import NutsModel.C18.X509
 open Lean Nuts.Drv Nuts.C18 Nuts
 
 namespace Nuts.Drv.C18
@@ -53,6 +54,37 @@ def posIn (all : List CEntry) (e : CEntry) : Nat :=
 
 def showCache (c : RCache) : String :=
   s!"{c.size}/{String.intercalate "." (c.list.map (fun e => s!"{e.id}@{(e.exp + 5000).fdiv 10000 * 10}"))}/{String.intercalate "." (c.all.map (fun e => s!"{e.id}:{posIn c.all e}"))}"
+
+
+/-! ### deepening round 2: did:x509 (`x5p` parse, `x5v` policy, `x5f` thumbprints, `x5r` Resolve) -/
+
+def xCertOf (j : Json) : XCert :=
+  { otherNames := if jBool j "otherErr" then none else some ((jStrs j "other").map bytesOf),
+    dns := (jStrs j "dns").map bytesOf, email := (jStrs j "email").map bytesOf, ips := (jStrs j "ip").map bytesOf,
+    serial := bytesOf (jStr j "serial"), cn := bytesOf (jStr j "cn"), locality := (jStrs j "L").map bytesOf,
+    country := (jStrs j "C").map bytesOf, province := (jStrs j "ST").map bytesOf, street := (jStrs j "STREET").map bytesOf,
+    org := (jStrs j "O").map bytesOf, ou := (jStrs j "OU").map bytesOf }
+
+def xHdr (j : Json) (k : String) : Option XTarget :=
+  if jStr j (k ++ "k") == "str" then some (targetOf (bytesOf (jStr j k))) else none
+
+def xCerts (j : Json) : Nat → XCert :=
+  let cs := ((jArr j "certs").map xCertOf).toArray
+  fun i => match cs[i]? with | some c => c | none => {}
+
+def xChain (j : Json) : XChain :=
+  match jStr j "chain" with
+  | "nil" => .nilMeta
+  | "missing" => .missing
+  | "ids" => .chain (jNats j "ids")
+  | e => .badPem e
+
+def xTbl := Nuts.C18.xValidatorTable
+
+def showRes {α} (f : α → String) : Res α → String
+  | .ok a => f a
+  | .err e => "err:" ++ e
+  | .panic p => "panic:" ++ p
 
 def maxCacheUnits : Int :=
   match maxCacheMinutes Nuts.Facts.C18.maxCacheTimeExpr with
@@ -164,6 +196,14 @@ def step (st : St) (j : Json) : St × List String :=
         | .err e => if e.startsWith "d2u:" then "err:d2u" else if e == "invalid-key" && d.method == sKey then "err:invalid-key:" ++ keyClass else "err:" ++ e
         | .panic p => "panic:" ++ p
       s!"resolve reqs={reqs.length} out={o}"
+    | "x5p" => "x5p " ++ showRes (fun (r : XRef) => s!"ok m={hx r.method} r={hx r.root} p=[{String.intercalate "," (r.policies.map fun p => hx p.name ++ ":" ++ hx p.value)}]") (parseX509Did d.id)
+    | "x5v" => "x5v " ++ showRes (fun _ => "ok") (match parseX509Did d.id with
+        | .ok r => validatePolicy xTbl (xCerts j 0) r.policies
+        | .err e => .err ("parse:" ++ e)
+        | .panic p => .panic p)
+    | "x5f" => "x5f " ++ showRes (fun c => s!"ok:{c}") (findValidationCert (jNats j "ids") (xHdr j "x5t") (xHdr j "x5s"))
+    | "x5r" => "x5r " ++ showRes (fun b => if b = d.str then "ok:same" else "ok:diff:" ++ hx b)
+        (resolveX509 xTbl d.method d.id { chain := xChain j, x5t := xHdr j "x5t", x5tS256 := xHdr j "x5s", certs := xCerts j, crlOK := jBool j "crl", vmOK := true })
     | "hc" => "hc " ++ String.intercalate ";" (hcSteps (RCache.new (jInt j "max")) (jArr j "steps") [])
     | o => "bad-op:" ++ o
   (st, [line])
